@@ -57,6 +57,17 @@ CHECKS.update({
    ref="4.7, 5/C17", note="Trusted: sh, bash, pwd -P. TXTPP_FILE 'designates' the source if it resolves to it as absolute path, relative to the base directory, or relative to the command's directory (Q5).",
    text="depth 0..3 x {library with 4 base-dir/cwd relations, CLI} x {default shell, bash -c, an argv-echo script} x {3 command shapes, 3 exit codes} (360 configurations) plus the TXTPP_FILE guard of the binary in 4 modes and a source that calls txtpp: working directory, TXTPP_FILE, the single joined argument seen by the shell, stdout splicing and exit-status handling."),
 })
+CHECKS.update({
+ "C04": dict(engine="S + X", technique="fault enumeration crossed with stateless model checking: every (fault kind, position, mode, input selection) explored under ALL task completion orders of the real coordinator; write limits enumerated at every byte count on the production binary",
+   ref="4.5, 5/C04", note=S_NOTE + " Faults are real OS-level faults (directory in the way, /dev/full, RLIMIT_FSIZE, missing directories, invalid UTF-8); permission faults cannot be produced as root.",
+   text="Project a->b->c plus unrelated d: 13 fault kinds x 4 positions of the faulty file x {build, needed, verify} x input selections, each explored under all completion orders: the run must return Err in every schedule (never Ok, hang or panic); the fault-free baseline must return Ok with correct outputs in every schedule. RLIMIT_FSIZE = n for every n from 0 to the largest generated file + 1 on the production binary: exit 0 iff nothing hit the limit, and then all outputs are complete."),
+ "C11": dict(engine="E-tree", technique="exhaustive enumeration of directory trees x input lists x options, each executed on the real Txtpp::run (processed sources observed through the hook trace) and compared with a reference set-of-sources function",
+   ref="4.7, 5/C11", note="Trusted: the reference function expected_set (harness/src/etree.rs), written from the property statement; canonical schedule.",
+   text="8 (quick) / 512 (thorough) trees over 3 directory levels x subsets of the three source-name shapes, with look-alike names in every directory, dotted-stem names and an include variant; input lists of length <=1/2 over 15 spellings (directories, either name, ./ and ../, absolute, missing, look-alikes) x recursive x build/needed/verify/clean x absolute/relative base: the processed set (hook trace), the created / removed / verified outputs and their names must be exactly what the statement prescribes; a target without source must fail."),
+ "C18": dict(engine="E-bytes", technique="bounded-exhaustive enumeration of hostile byte strings, arguments and option values, each executed on the real Txtpp::run under the controller (worker panics and the resulting coordinator hang are observed) and on the production binary",
+   ref="4.7, 5/C18", note="Trusted: nothing beyond the OS. Bytes outside the 17-token alphabet and strings longer than the bound are not covered; special files are outside the domain.",
+   text="All byte strings of <=3/4 tokens over 17 hostile tokens (NUL, 0xff, split UTF-8, lone CR, directive fragments) in 4 roles (source, included file, existing output, existing temp target) x 4 modes; 270+ hostile directive lines; lines of 8191/8192/8193/65537 bytes; threads 0..16, 7 shells, bad base directories and inputs; the production binary on a 33-case core x 4 modes x thread counts x recursive: every run returns Ok or Err, no thread panics, the binary exits 0 or 1 in bounded time."),
+})
 NOT_YET = {}
 props = [json.loads(l) for l in open("/verif/properties.jsonl")]
 checks, na = [], []
@@ -92,6 +103,8 @@ m = {
    {"name": "E-lines / U-gram / U-tag", "path": "/verif/harness/src/model.rs, elines.rs, elines2.rs, gram.rs, tags.rs", "serves_properties": ["C01", "C12", "C13", "C14", "C15", "C16"], "kind_free_text": "bounded-exhaustive input enumeration against a reference state machine, all traces replayed on the real code"},
    {"name": "H", "path": "/verif/harness/src/hist.rs", "serves_properties": ["C06", "C07", "C08", "C09", "C10"], "kind_free_text": "BFS over operation histories of a project tree with state dedup; every transition executes the real txtpp"},
    {"name": "E-conf", "path": "/verif/harness/src/conf.rs", "serves_properties": ["C17"], "kind_free_text": "exhaustive configuration enumeration"},
+   {"name": "X (faults)", "path": "/verif/harness/src/faults.rs, limit_exec.rs", "serves_properties": ["C04"], "kind_free_text": "fault enumeration under all schedules; RLIMIT_FSIZE launcher"},
+   {"name": "E-tree / E-bytes", "path": "/verif/harness/src/etree.rs, ebytes.rs", "serves_properties": ["C11", "C18"], "kind_free_text": "exhaustive enumeration of trees/inputs and of hostile bytes/options"},
    {"name": "S", "path": "/verif/harness/src/ctl.rs, sched.rs", "serves_properties": ["C02", "C03", "C05"], "kind_free_text": "controlled scheduler behind txtpp's verif hooks + DFS over task completion orders on the real Txtpp::run"},
  ],
  "checks": checks,
